@@ -188,14 +188,14 @@ def summarize(exe, st, f, bb, callee, args, dest_ty):
                 return [(st, VAgg("Option::None", "None", []))]
             return [(st, VAgg("Option::Some", "Some", [VRef("elem", ref, _u64(0))]))]
         return None
-    if re.search(r"<Vec<.*> as DerefMut>::deref_mut$", c):
+    if re.search(r"^<Vec<.*> as DerefMut>::deref_mut$", c):
         return [(st, args[0])]
     if re.search(r"Vec::<.*>::len$", c) or re.search(r"core::slice::<impl \[.*\]>::len$", c):
         v = _deref_all(exe, st, args[0])
         if isinstance(v, (VVec, VSlice)):
             return [(st, exe.length(v))]
         return None
-    if re.search(r"<Vec<.*> as (?:Index|IndexMut)<usize>>::index(_mut)?$", c):
+    if re.search(r"^<Vec<.*> as (?:Index|IndexMut)<usize>>::index(_mut)?$", c):
         ref = args[0]
         vec = _deref_all(exe, st, ref)
         idx = _int(exe, st, args[1])
@@ -206,7 +206,7 @@ def summarize(exe, st, f, bb, callee, args, dest_ty):
                 return []
             return [(st, VRef("elem", ref if isinstance(ref, VRef) else vec, idx))]
         return None
-    if re.search(r"<Vec<.*> as Index<(?:std::ops::)?Range<usize>>>::index$", c):
+    if re.search(r"^<Vec<.*> as Index<(?:std::ops::)?Range<usize>>>::index$", c):
         vec = _deref_all(exe, st, args[0])
         rng = args[1]
         if isinstance(vec, VVec) and isinstance(rng, VAgg) and len(rng.fields) == 2:
@@ -241,12 +241,12 @@ def summarize(exe, st, f, bb, callee, args, dest_ty):
                 total = total + term
             return [(st, VInt(total, 64, False))]
         return None
-    if re.search(r"<Vec<.*> as IntoIterator>::into_iter$", c):
+    if re.search(r"^<Vec<.*> as IntoIterator>::into_iter$", c):
         v = args[0]
         if isinstance(v, VVec):
             return [(st, VIter("vec", v, 0))]
         return None
-    if re.search(r"<std::vec::IntoIter<.*> as Iterator>::next$", c):
+    if re.search(r"^<std::vec::IntoIter<.*> as Iterator>::next$", c):
         ref = args[0]
         it = _deref_all(exe, st, ref)
         if isinstance(it, VIter) and it.kind == "vec" and isinstance(ref, VRef):
@@ -256,7 +256,7 @@ def summarize(exe, st, f, bb, callee, args, dest_ty):
                 return [(st, VAgg("Option::Some", "Some", [el]))]
             return [(st, VAgg("Option::None", "None", []))]
         return None
-    if re.search(r"<std::ops::Range<usize> as Iterator>::next$", c):
+    if re.search(r"^<std::ops::Range<usize> as Iterator>::next$", c):
         ref = args[0]
         rng = _deref_all(exe, st, ref)
         if isinstance(rng, VAgg) and len(rng.fields) == 2 and isinstance(ref, VRef):
@@ -274,7 +274,7 @@ def summarize(exe, st, f, bb, callee, args, dest_ty):
                 outs.append((s3, VAgg("Option::None", "None", [])))
             return outs
         return None
-    if re.search(r"<std::ops::Range<usize> as IntoIterator>::into_iter$", c):
+    if re.search(r"^<std::ops::Range<usize> as IntoIterator>::into_iter$", c):
         return [(st, args[0])]
 
     r = iterator_summaries(exe, st, f, bb, c, args, dest_ty)
@@ -292,6 +292,26 @@ def summarize(exe, st, f, bb, callee, args, dest_ty):
                 return [(st, exe.deref(st, v))]
             except PathEnd:
                 return None
+        return None
+    if re.search(r" as Extend<.*>>::extend::<", c):
+        ref = args[0]
+        dst = _deref_all(exe, st, ref)
+        src = args[1]
+        if isinstance(dst, VVec) and isinstance(src, VVec) and isinstance(ref, VRef):
+            exe.write_ref(st, ref, [], VVec(list(dst.elems) + list(src.elems), dst.ety), f)
+            return [(st, VUnit())]
+        return None
+    if re.search(r"std::mem::take::<", c):
+        ref = args[0]
+        cur = _deref_all(exe, st, ref)
+        if isinstance(cur, VVec) and isinstance(ref, VRef):
+            exe.write_ref(st, ref, [], VVec([], cur.ety), f)
+            return [(st, cur)]
+        return None
+    if re.search(r"Vec::<.*>::is_empty$", c):
+        v = _deref_all(exe, st, args[0])
+        if isinstance(v, VVec):
+            return [(st, VBool(z3.BoolVal(len(v.elems) == 0)))]
         return None
     if re.search(r"std::mem::(drop|forget)::<", c):
         return [(st, VUnit())]
@@ -385,8 +405,32 @@ def _key_ge(exe, st, a, b):
 
 
 def iterator_summaries(exe, st, f, bb, c, args, dest_ty):
+    # ---- generic code (`impl IntoIterator`): dispatch on the model value ---------------------
+    if re.search(r" as IntoIterator>::into_iter$", c) and args:
+        if isinstance(args[0], VIter):
+            return [(st, args[0])]
+        if isinstance(args[0], VVec):
+            return [(st, VIter("vec", args[0], 0))]
+    if re.search(r" as Iterator>::next$", c) and args and isinstance(args[0], VRef):
+        it0 = _deref_all(exe, st, args[0])
+        if isinstance(it0, VIter) and it0.kind not in ("slice", "vec"):
+            outs = []
+            for (s2, els) in materialize(exe, st, it0):
+                if els:
+                    exe.write_ref(s2, args[0], [], VIter("vec", VVec(els[1:]), 0), f)
+                    outs.append((s2, VAgg("Option::Some", "Some", [els[0]])))
+                else:
+                    exe.write_ref(s2, args[0], [], VIter("vec", VVec([]), 0), f)
+                    outs.append((s2, VAgg("Option::None", "None", [])))
+            return outs
+        if isinstance(it0, VIter) and it0.kind == "vec":
+            if it0.pos < len(it0.src.elems):
+                el = it0.src.elems[it0.pos]
+                exe.write_ref(st, args[0], [], VIter("vec", it0.src, it0.pos + 1), f)
+                return [(st, VAgg("Option::Some", "Some", [el]))]
+            return [(st, VAgg("Option::None", "None", []))]
     # ---- constructors / adaptors ----------------------------------------------------
-    if re.search(r"<std::vec::IntoIter<.*> as IntoIterator>::into_iter$", c):
+    if re.search(r"^<std::vec::IntoIter<.*> as IntoIterator>::into_iter$", c):
         return [(st, args[0])]
     if re.search(r"<std::slice::Iter<'_, .*> as IntoIterator>::into_iter$", c) or re.search(r"<std::iter::\w+<.*> as IntoIterator>::into_iter$", c):
         return [(st, args[0])]
@@ -394,7 +438,7 @@ def iterator_summaries(exe, st, f, bb, c, args, dest_ty):
     if m and isinstance(args[0], VIter):
         kind = {"copied": "cloned"}.get(m.group(1), m.group(1))
         return [(st, VIter(kind, args[0], 0, args[1] if len(args) > 1 else None))]
-    if re.search(r"<Vec<.*> as Deref>::deref$", c) or re.search(r"Vec::<.*>::as_slice$", c):
+    if re.search(r"^<Vec<.*> as Deref>::deref$", c) or re.search(r"Vec::<.*>::as_slice$", c):
         v = _deref_all(exe, st, args[0])
         if isinstance(v, VVec):
             return [(st, VRef("val", VSlice(v, _u64(0), _u64(len(v.elems)))))]
@@ -405,8 +449,23 @@ def iterator_summaries(exe, st, f, bb, c, args, dest_ty):
         if k is None:
             raise PathEnd("vec![x; n] with symbolic n")
         return [(st, VVec([args[0]] * k))]
+    # ---- next on adaptor iterators: materialise once, then step ----------------------------
+    if re.search(r"<std::iter::\w+<.*> as Iterator>::next$", c):
+        ref = args[0]
+        it = _deref_all(exe, st, ref)
+        if isinstance(it, VIter) and isinstance(ref, VRef):
+            outs = []
+            for (s2, els) in materialize(exe, st, it):
+                if els:
+                    exe.write_ref(s2, ref, [], VIter("vec", VVec(els[1:]), 0), f)
+                    outs.append((s2, VAgg("Option::Some", "Some", [els[0]])))
+                else:
+                    exe.write_ref(s2, ref, [], VIter("vec", VVec([]), 0), f)
+                    outs.append((s2, VAgg("Option::None", "None", [])))
+            return outs
+        return None
     # ---- next on slice iterators ----------------------------------------------------
-    if re.search(r"<std::slice::Iter<'_, .*> as Iterator>::next$", c):
+    if re.search(r"^<std::slice::Iter<'_, .*> as Iterator>::next$", c):
         ref = args[0]
         it = _deref_all(exe, st, ref)
         if isinstance(it, VIter) and it.kind == "slice" and isinstance(ref, VRef):
